@@ -337,6 +337,22 @@ func lmove(c *Ctx, src, dst string, fromLeft, toLeft bool) Exp {
 	if do != nil && do.T != TList {
 		return wrongType()
 	}
+	if src == dst {
+		// rotation in place: the key (and its expiry) survives even with one element
+		var v []byte
+		if fromLeft {
+			v, so.L = so.L[0], so.L[1:]
+		} else {
+			v, so.L = so.L[len(so.L)-1], so.L[:len(so.L)-1]
+		}
+		if toLeft {
+			so.L = append([][]byte{v}, so.L...)
+		} else {
+			so.L = append(so.L, v)
+		}
+		c.touch(src)
+		return BulkExp(string(v))
+	}
 	v := popOne(c, src, so, fromLeft)
 	do = c.get(dst)
 	if do == nil {
